@@ -54,7 +54,7 @@ Ltac frs0 :=
   | |- frs _ (upd _ _) => apply frs_upd; intros; reflexivity
   | |- frs _ (emit _ _) => apply frs_emit
   | |- frs _ (send _ _ _) => apply frs_send
-  | |- _ => eapply fr_frs; fr0
+  | |- _ => first [ apply (fr_frs true); fr0 | apply (fr_frs false); fr0 ]
   end.
 Lemma frs_if : forall (b : bool) s x y, frs s x -> frs s y -> frs s (if b then x else y).
 Proof. intros [] s x y; auto. Qed.
@@ -255,7 +255,7 @@ Proof.
   assert (forall t c s, frs s (on_append_entries e from m t c s)) as HAE.
   { intros. rewrite on_append_entries_eq. destruct (t <? _); [frs1|].
     eapply frs_trans; [apply frs_ae_head | eapply fr_frs; apply fr_ae_tail]. }
-  destruct m; try apply HAE.
+  destruct m as [t lli llt|t|? ? ? ?|? ? ? ? ? ? ?|? ? ?|cm req|req okr a b|t next reset success]; try apply HAE.
   - (* RequestVote *)
     destruct (self (nd (start_S e n))); [|frs1].
     match goal with |- frs ?s0 (if (role (nd ?X) =? _) || _ then _ else _) => assert (frs s0 X) as H0 end.
@@ -270,7 +270,7 @@ Proof.
   - (* ApplyCmd *) eapply fr_frs; apply (fr_submit true).
   - (* ApplyResp *)
     destruct (aget req _); [|frs1].
-    destruct (negb ok0); [frschain|]. destruct (a <=? _); frschain.
+    destruct (negb okr); [frschain|]. destruct (a <=? _); frschain.
   - (* NextIdx *)
     destruct (_ && _); [|frs1].
     match goal with |- frs ?s0 (if ok ?X then _ else _) => assert (frs s0 X) as H0 end.
